@@ -796,6 +796,105 @@ theorem incremental_pruning_exact (m : Model) (hv : Valid m) (τ : Rat) (hsep : 
 example (n : Nat) : EnvPreserving n id := fun _ h => ⟨h, fun _ _ => rfl⟩
 
 
+
+/-! ## Incremental Pruning's merge schedule AS WRITTEN -/
+
+theorem range_map_sum (n : Nat) (g : Nat → Rat) : ((List.range n).map g).sum = sumTo n g := by
+  induction n with
+  | zero => rfl
+  | succ n ih => rw [List.range_succ, List.map_append, List.sum_append, ih]; simp [sumTo]
+
+/-- invariant of `ipRun` against `symRun`: every slot is non-empty and its envelope is the sum of the projected envelopes of the
+    observation indices the symbolic run has collected in that slot -/
+theorem ipRun_invariant (n : Nat) (prune : List Vec → List Vec) (hp : EnvPreserving n prune) (P : Nat → List Vec)
+    (b : Vec) (hb : NonNeg n b) :
+    ∀ (ms : List (Nat × Nat)) (sl : Nat → List Vec) (sy : Nat → List Nat),
+      (∀ i, sl i ≠ [] ∧ env n (sl i) b = ((sy i).map (fun o => env n (P o) b)).sum) →
+      ∀ i, ipRun n prune ms sl i ≠ [] ∧
+           env n (ipRun n prune ms sl i) b = ((symRun ms sy i).map (fun o => env n (P o) b)).sum := by
+  intro ms
+  induction ms with
+  | nil => intro sl sy h i; exact h i
+  | cons hd ms ih =>
+    intro sl sy h
+    obtain ⟨d, s⟩ := hd
+    simp only [ipRun, symRun]
+    apply ih
+    intro i
+    unfold updSlot
+    by_cases hi : i = d
+    · simp only [hi, if_true]
+      have hc := crossSum_ne_nil n _ _ (h d).1 (h s).1
+      refine ⟨(hp _ hc).1, ?_⟩
+      rw [(hp _ hc).2 b hb, envelope_crossSum n _ _ b (h d).1 (h s).1, (h d).2, (h s).2, List.map_append, List.sum_append]
+    · simp only [hi, if_false]
+      exact h i
+
+/-- **ipActionW_spec** (soundness of the decidable `scheduleOK`): whenever the as-written schedule for `O` observations gathers
+    every observation exactly once, the as-written per-action merge has the envelope Σ_o env(P o) at every belief. -/
+theorem ipActionW_spec (n : Nat) (prune : List Vec → List Vec) (hp : EnvPreserving n prune) (O : Nat) (hO : scheduleOK O = true)
+    (P : Nat → List Vec) (hP : ∀ o, P o ≠ []) :
+    ipActionW n prune O P ≠ [] ∧ ∀ b, NonNeg n b → env n (ipActionW n prune O P) b = sumTo O (fun o => env n (P o) b) := by
+  have hinit : ∀ b, NonNeg n b → ∀ i, (fun o => prune (P o)) i ≠ [] ∧
+      env n ((fun o => prune (P o)) i) b = (((fun o => [o]) i).map (fun o => env n (P o) b)).sum := by
+    intro b hb i
+    refine ⟨(hp _ (hP i)).1, ?_⟩
+    simp [(hp _ (hP i)).2 b hb]
+  constructor
+  · -- non-emptiness does not depend on b: use the zero vector as a point
+    have hz : NonNeg n (vzero n) := by
+      intro s hs; unfold vzero; rw [mkVec_get _ hs]
+    exact (ipRun_invariant n prune hp P (vzero n) hz (ipSchedule O).1 _ _ (hinit _ hz) (ipSchedule O).2).1
+  · intro b hb
+    have := (ipRun_invariant n prune hp P b hb (ipSchedule O).1 _ _ (hinit b hb) (ipSchedule O).2).2
+    unfold ipActionW
+    rw [this]
+    unfold scheduleOK at hO
+    rw [List.isPerm_iff] at hO
+    rw [(hO.map _).sum_eq, range_map_sum]
+
+theorem ipStepW_spec (m : Model) (hv : Valid m) (τ : Rat) (hsep : Sep m τ) (hγ : 0 ≤ m.γ) (hO : scheduleOK m.O = true)
+    (prune : List Vec → List Vec) (hp : EnvPreserving m.S prune) (Γ : List Vec) (hΓ : Γ ≠ []) :
+    ipStepW m τ prune Γ ≠ [] ∧
+    ∀ b, NonNeg m.S b → env m.S (ipStepW m τ prune Γ) b = maxTo (m.A - 1) (qOf m (env m.S Γ) b) := by
+  have hG : ∀ a, ipActionW m.S prune m.O (projList m τ Γ a) ≠ [] :=
+    fun a => (ipActionW_spec m.S prune hp m.O hO _ (fun o => projList_ne_nil m τ Γ a o hΓ)).1
+  have hU : unionTo m.A (fun a => ipActionW m.S prune m.O (projList m τ Γ a)) ≠ [] := by
+    obtain ⟨k, hk⟩ : ∃ k, m.A = k + 1 := ⟨m.A - 1, by have := hv.hA; omega⟩
+    rw [hk]; exact unionTo_ne_nil k _ (hG k)
+  refine ⟨(hp _ hU).1, ?_⟩
+  intro b hb
+  unfold ipStepW
+  rw [(hp _ hU).2 b hb]
+  exact env_step_general m hv τ hsep hγ Γ hΓ _ hG b hb
+    (fun a _ => (ipActionW_spec m.S prune hp m.O hO _ (fun o => projList_ne_nil m τ Γ a o hΓ)).2 b hb)
+
+/-- **incremental_pruning_as_written_exact**: `IncrementalPruning::operator()` with its merge schedule as written (index arithmetic
+    replayed by `ipSchedule`), any envelope-preserving pruner, and a number of observations for which the decidable `scheduleOK`
+    holds (evaluated by the driver for every instance; `scheduleOK_upto` checks 1..64), yields the expectimax value at every belief
+    and every horizon.  (FULL STATEMENT still open: `∀ O ≥ 1, scheduleOK O = true`, the loop-invariant of the index arithmetic.) -/
+theorem incremental_pruning_as_written_exact (m : Model) (hv : Valid m) (τ : Rat) (hsep : Sep m τ) (hγ : 0 ≤ m.γ)
+    (hO : scheduleOK m.O = true) (prune : List Vec → List Vec) (hp : EnvPreserving m.S prune) :
+    ∀ (h : Nat), ipIterW m τ prune h ≠ [] ∧ ∀ b, NonNeg m.S b → env m.S (ipIterW m τ prune h) b = expectimax m h b := by
+  intro h
+  induction h with
+  | zero =>
+    refine ⟨by simp [ipIterW], ?_⟩
+    intro b _; simp [ipIterW, expectimax, env, lmax, dot_vzero]
+  | succ h ih =>
+    obtain ⟨ne, e⟩ := ih
+    have sp := ipStepW_spec m hv τ hsep hγ hO prune hp _ ne
+    refine ⟨sp.1, ?_⟩
+    intro b hb
+    simp only [ipIterW, expectimax]
+    rw [sp.2 b hb]
+    apply maxTo_congr
+    intro a ha
+    exact qOf_congr m hv _ _ e b hb (by have := hv.hA; omega)
+
+/-- test on literals (kernel evaluation): the as-written schedule is a correct full merge for every O from 1 to 64 -/
+theorem scheduleOK_upto : (List.range 64).all (fun k => scheduleOK (k+1)) = true := by decide +kernel
+
 /-! ## RTBSS -/
 
 /-- `maxR` bounds every reward (the constructor's documented meaning: "the max reward obtainable in the model") -/
@@ -1363,7 +1462,8 @@ theorem rtbss_as_extracted (m : Model) (hv : Valid m) (hγ0 : 0 ≤ m.γ) (maxR 
 /-- the statement order the model hard-codes is the one found in the source (test on generated literals) -/
 theorem sites_match_model :
     AITB.Gen.C02.rtbssSites = ["h0", "iota", "negInf", "forA", "rew", "uBound", "prune", "forO", "update", "diffSmall", "recurse", "cmp", "setMax", "topOnly", "ret"] ∧
-    AITB.Gen.C02.projecterSites = ["impossible", "rewardOnly", "TxVO", "timesGammaPlusR", "overO", "possibleSmall"] := by decide
+    AITB.Gen.C02.projecterSites = ["impossible", "rewardOnly", "TxVO", "timesGammaPlusR", "overO", "possibleSmall"] ∧
+    AITB.Gen.C02.ipScheduleSites = ["pruneEach", "oddOld", "init", "while", "for", "merge", "pruneMerged", "dec", "oddNew", "tmp", "back", "front", "step", "diff", "odd", "moveFront", "union", "pruneUnion"] := by decide
 
 /-- the repaired configuration handles the counterexample of the shipped one (test on literals) -/
 example : rtSampleC ⟨true, true⟩ cxNeg 0 (-1) 3 #[1] = (0, -7/4) := by decide +kernel
